@@ -23,14 +23,14 @@ CFG = {
     "level_note": "Trusted: Coq kernel + vm_compute; hand model of semaphore.go / map.go / wmap.go (C01_Model.v on top of Semap.v) tied by the "
                   "correspondence run; sync.Mutex, channel close/receive, select and context cancellation are modelled (one label per critical "
                   "section; the cancel path's `case <-ready` is the model's no-op Cancel of a holder), not verified; the harness's schedule "
-                  "forcing and quiescence detection; the verif hooks VerifKeyState / VerifEntries.  The lint checks SemMap.release (lock / deferred unlock) and, in mode 'handoff', that SemMap.acquire is one critical section handed unbroken to Weighted.acquire (look-up, entry creation and grant/enqueue under one hold of the map mutex) - the atomicity the labels of the model stand for; a lint failure sends the driver into the search mode of the harness.  The forced schedules issue one call at a time and therefore cannot put two callers inside one critical section; races inside a label are looked for by the free-running classes: stress (in-section monitor counters, cancellations racing against grants) and fresh-key-burst (every round 8..16 callers let loose from a spin barrier on a never-used key, in-section counters, VerifEntries = 0 after the round).  Deadline contexts are not generated (only explicit cancellation): the code path is the same "
+                  "forcing and quiescence detection; the verif hooks VerifKeyState / VerifEntries.  The lint checks SemMap.release (lock / deferred unlock) and, in mode 'handoff', that SemMap.acquire is one critical section handed unbroken to Weighted.acquire (look-up, entry creation and grant/enqueue under one hold of the map mutex) - the atomicity the labels of the model stand for; a lint failure sends the driver into the search mode of the harness.  The forced schedules issue one call at a time and therefore cannot put two callers inside one critical section; races inside a label are looked for by the free-running classes: stress (in-section monitor counters, cancellations racing against grants) and fresh-key-burst (every round 8..16 callers let loose from a spin barrier on a never-used key, in-section counters, VerifEntries = 0 after the round), batch-cancel (every round on a never-used key with rwRatio 16..64: a writer holds, 1..40 readers are positively observed parked, ReleaseWrite - one hand-off to the whole queue - and the cancellation of all / half of the readers' contexts are let loose from a spin barrier; every Acquire* must return; whoever returned nil releases, whoever returned the context error must hold nothing: the tokens booked equal the number of nil returns, and after the releases VerifKeyState = (0,0,absent), VerifEntries = 0 and a fresh writer is admitted at once - facts that hold under every legal schedule).  Deadline contexts are not generated (only explicit cancellation): the code path is the same "
                   "(ctx.Done()).  The stress class has no label trace, so for it case_accept = case_holds = the in-section monitor summary.  "
                   "The theorems are over Z for every rwRatio >= 1; the code computes in 64-bit int: C01_Int64.v wraps every arithmetic operation of "
                   "semaphore.go to int64 and proves the wrapped machine equal to the Z machine under the invariant for 1 <= rwRatio <= MaxInt64 "
                   "(the sum form of the fit test is refuted at MaxInt64); the generator includes rwRatio MaxInt, MaxInt-1, MaxInt32, 2^62.  "
                   "No axioms; nothing PENDING.",
     "rule": "a forced schedule is non-trivial when at some step a caller was observed queued (waiter count > 0 on some key); a stress run "
-            "when more than one reader or at least one writer was seen inside a critical section; a fresh-key-burst summary when at least one round ran; distinct = distinct "
+            "when more than one reader or at least one writer was seen inside a critical section; a fresh-key-burst summary when at least one round ran; a batch-cancel summary when some round saw both outcomes (nil and context error); distinct = distinct "
             "(rwRatio, number of keys, labels, observations) - the container variant and shard count are not part of the Coq term",
     "trusted": ["forced-schedule driver of harness/cmd/c01 (one goroutine per pending Acquire*, done-channel per caller, polling of "
                 "semap.VerifKeyState until every not-returned caller of a key is in its wait queue; the only time-outs are 10 s bounds on "
